@@ -176,11 +176,7 @@ func totality(p *canvas.Path, r *vf.R, cs Case) error {
 		})
 		boolean := c.name == "And" || c.name == "Or" || c.name == "Xor" || c.name == "Not" || c.name == "rect.And(p)" || c.name == "Settle" || c.name == "Stroke" || c.name == "Offset"
 		if err == nil && herr != nil {
-			// F10h: the sweep behind these calls does not terminate on some inputs (see F01d), here also depending on
-			// what the process ran before (the recorded inputs return at once in a fresh process)
-			if boolean && r.Excluded("F10h", true) {
-				return nil // the hanging goroutine may still write to p: no further calls on this path
-			}
+			// (the call is left running in its goroutine; the shard goes on and reports)
 			return vf.Errorf("%s on %v: %v", c.name, p, herr)
 		}
 		if err != nil {
